@@ -6,15 +6,61 @@ from . import core
 def read(path):
     return open(os.path.join(core.REPO, path)).read()
 
+def _strip_comments_keep_len(src):
+    """Same-length copy of src with comments and string/char literals blanked (so braces inside them do not count)."""
+    out = list(src); i = 0; n = len(src)
+    while i < n:
+        c = src[i]
+        if src.startswith("//", i):
+            j = src.find("\n", i); j = n if j < 0 else j
+            for k in range(i, j): out[k] = " "
+            i = j
+        elif src.startswith("/*", i):
+            j = src.find("*/", i + 2); j = n if j < 0 else j + 2
+            for k in range(i, j):
+                if out[k] != "\n": out[k] = " "
+            i = j
+        elif c in "\"'":
+            j = i + 1
+            while j < n and src[j] != c:
+                j += 2 if src[j] == "\\" else 1
+            for k in range(i + 1, min(j, n)): out[k] = " "
+            i = j + 1
+        else:
+            i += 1
+    return "".join(out)
+
 def function(src, name):
-    # definition: name( ... ) { ... } starting at column 0 return type line(s)
-    m = re.search(r"^(?:static\s+|inline\s+|INLINE\s+|EB_API\s+)*[A-Za-z_][A-Za-z0-9_ \*]*?\b%s\s*\([^;{]*?\)\s*\{" % re.escape(name), src, re.M | re.S)
-    if not m:
-        raise RuntimeError("function %s not found" % name)
-    pos = m.end(); depth = 1
-    while depth:
-        c = src[pos]; depth += (c == "{") - (c == "}"); pos += 1
-    return src[m.start():pos] + "\n"
+    """Text of the top-level definition of `name` (from the start of its declaration line to its closing brace)."""
+    clean = _strip_comments_keep_len(src)
+    depth = [0] * (len(clean) + 1); d = 0
+    for i, c in enumerate(clean):
+        depth[i] = d
+        if c == "{": d += 1
+        elif c == "}": d -= 1
+    for m in re.finditer(r"\b%s\s*\(" % re.escape(name), clean):
+        if depth[m.start()] != 0:
+            continue
+        pos = m.end(); par = 1
+        while par and pos < len(clean):
+            par += (clean[pos] == "(") - (clean[pos] == ")"); pos += 1
+        k = pos
+        while k < len(clean) and clean[k] in " \t\r\n": k += 1
+        if k >= len(clean) or clean[k] != "{":
+            continue                      # a prototype or a call at file scope, not the definition
+        start = clean.rfind("\n", 0, m.start()) + 1
+        # include preceding lines of the return type (e.g. "static INLINE int32_t\nname(") up to a blank line / '}' / ';'
+        while start > 0:
+            prev_end = start - 1; prev_start = clean.rfind("\n", 0, prev_end) + 1
+            line = clean[prev_start:prev_end].strip()
+            if not line or line.endswith((";", "}", ")")) or line.startswith("#"):
+                break
+            start = prev_start
+        end = k + 1; b = 1
+        while b:
+            b += (clean[end] == "{") - (clean[end] == "}"); end += 1
+        return src[start:end] + "\n"
+    raise RuntimeError("function %s not found" % name)
 
 def functions(path, names):
     src = read(path)
